@@ -40,7 +40,7 @@ var serverAlphabet = []CIn{
 	{Kind: "data", Sub: "ping"}, // 24 a ping request command (servers often auto-reply these)
 	{Kind: "data", Sub: "not"},
 	// an authentication member that is an empty object: the peer presents the scheme but no secret (token 9999)
-	ses("SID", "authenticating", "", "", "plain", ip(9999)),  // 25
+	ses("SID", "authenticating", "", "", "plain", ip(9999)), // 25
 }
 
 var serverConfs = []*SConf{
@@ -61,7 +61,9 @@ var serverConfs = []*SConf{
 var serverOracles = []*SOracle{
 	{Name: "plain1-ok", Auth: []AuthRow{
 		{1, "plain", ip(1), 0, "role"}, {1, "plain", ip(2), 0, "round:7"}, {1, "plain", ip(1), 1, "role"},
-		{1, "plain", ip(2), 1, "unknown"}, {1, "key", ip(1), 0, "err"}, {1, "guest", ip(0), 0, "unknown"}},
+		{1, "plain", ip(2), 1, "unknown"}, {1, "key", ip(1), 0, "err"}, {1, "guest", ip(0), 0, "unknown"},
+		// behind a round trip: a scheme that some configurations do not offer would be accepted if it were looked at
+		{1, "key", ip(1), 1, "role"}, {1, "guest", ip(0), 1, "role"}},
 		Reg: []RegRow{{1, "node:5"}}},
 	{Name: "guest-ok-register-fails", Auth: []AuthRow{
 		{1, "guest", ip(0), 0, "role"}, {1, "plain", ip(1), 0, "unknown"}, {1, "plain", nil, 0, "role"}},
